@@ -34,6 +34,8 @@ def shard_container_layout(desc, rec):
             """the same instant given as a naive local time (fold set where needed), with sub-second part, or as an
             aware datetime in UTC / another fixed offset"""
             how = rng.choice(["naive", "naive", "naive-us", "utc", "offset"])
+            if ts < 0 and how == "naive-us":
+                how = "naive"    # which whole second an instant *between* two seconds before 1970 belongs to is not pinned down
             if how == "naive":
                 return datetime.fromtimestamp(ts)
             if how == "naive-us":
